@@ -146,7 +146,9 @@ func mentions(n ast.Node, names ...string) bool {
 }
 
 // rowLens runs the part of `(*Parameters).initRC` that shapes the key table, for (width, rf, rp):
-//   tab := make([][]fr.Element, N); for i := lo; i < hi; i++ { tab[i] = make([]fr.Element, n); … tab[i][j].SetBytes(..) … }; p.RoundKeys = tab
+//
+//	tab := make([][]fr.Element, N); for i := lo; i < hi; i++ { tab[i] = make([]fr.Element, n); … tab[i][j].SetBytes(..) … }; p.RoundKeys = tab
+//
 // Every other statement must not mention the table. Result: the length of every row.
 func (p *pkgCtx) rowLens(w, rf, rp int) ([]int, string) {
 	key := fmt.Sprintf("%d,%d,%d", w, rf, rp)
